@@ -20,6 +20,7 @@ for k in ('findings','fixed'):
 json.dump(ours,open('known_findings.json','w'),indent=1)
 PY
     ;;
+    harness/src/lib.rs) sed -i "/^<<<<<<< /d;/^=======$/d;/^>>>>>>> /d" $f;;
     *) echo "UNRESOLVED $f";;
   esac
 done
